@@ -532,7 +532,10 @@ class Interp:
         payload = n.fields.get("value") if k == 1 else (n.fields.get("exception") if k == 3 else None)
         if k == 3:
             self.ctx.notes.append("error-record-stored")
-        return self.to_val((k, payload))
+        t = self.to_val((k, payload))
+        # the kind code of the record can be read back (ground instance of val2int(int2val(k)) == k)
+        self.ctx.assume(smt.val2int(smt.tup2_0(t)) == k)
+        return t
 
     def notif_from_val(self, t):
         """decode; the lists that hold notifications hold elements and completions only (checked where they are stored)"""
